@@ -295,5 +295,6 @@ class FilterSet(object):
         if not isinstance(filters, (FilterSet, list)):
             filters = [filters]
 
-        for f in filters:
+        # (over a copy: the filters to remove may be this very set)
+        for f in list(filters):
             self._filters.remove(f)
